@@ -11,7 +11,7 @@ from vmon import spies, zoo
 PID = "C08"
 LEVEL = "exploration"
 RULE = ("cases = (base forecaster with parameter grid or distributions, splitter, series, metric of either direction, refit "
-        "on/off, n_jobs in {None, 2} under the threading backend, grid or randomized search); non-trivial: >= 2 candidates "
+        "on/off, fold strategy refit / update, n_jobs in {None, 2} under the threading backend, grid or randomized search); non-trivial: >= 2 candidates "
         "with distinct mean scores (so that the direction of the ranking matters); distinct = distinct case dict")
 ANCHOR_FILES = ["sktime/forecasting/model_selection/_tune.py", "sktime/forecasting/model_evaluation/_functions.py",
                 "sktime/performance_metrics/forecasting/_classes.py"]
@@ -19,7 +19,7 @@ REQUIRED_REACH = ["_tune.py:BaseGridSearch.fit", "_tune.py:ForecastingGridSearch
                   "_tune.py:ForecastingRandomizedSearchCV._run_search", "_tune.py:BaseGridSearch.check_is_fitted",
                   "_tune.py:BaseGridSearch.predict", "_functions.py:evaluate"]
 REQUIRED_MONITORS = ["rows", "best.direction", "best.bookkeeping", "refit.delegation", "norefit.guard", "same-splits"]
-NOT_COVERED = ["process-based joblib backends", "strategy='update' inside the search"]
+NOT_COVERED = ["process-based joblib backends"]
 ASSUMPTIONS = ["ties in the mean score: any tied candidate is accepted as best"]
 JOBS = {"quick": 4, "thorough": 16}
 
@@ -58,7 +58,8 @@ def cases(tier, seed):
         yield {"base": b, "cv": cv, "n": n, "off": int(rng.choice([0, 9, -15, 2000])), "scoring": METRICS[int(rng.integers(0, len(METRICS)))],
                "refit": bool(rng.random() < 0.7), "n_jobs": [None, None, 2][int(rng.integers(0, 3))],
                "search": "grid" if rng.random() < 0.7 else "random", "n_iter": int(rng.integers(2, 6)), "rs": int(rng.integers(0, 1000)),
-               "dseed": int(rng.integers(0, 2 ** 31)), "series": ["seasonal", "walk"][int(rng.integers(0, 2))]}
+               "dseed": int(rng.integers(0, 2 ** 31)), "series": ["seasonal", "walk"][int(rng.integers(0, 2))],
+               "strategy": "update" if rng.random() < 0.3 else "refit"}
 
 
 def _build(spec, lid):
@@ -89,12 +90,14 @@ def run_case(case, ctx):
         scoring = zoo.build_metric(case["scoring"])
         metric = scoring if scoring is not None else M.MeanAbsolutePercentageError()
         base = _build(spec, lid)
+        strategy = case.get("strategy", "refit")
+        skw = {"strategy": strategy} if strategy != "refit" else {}     # the default is exercised by leaving the argument out
         if case["search"] == "grid":
-            tuner = ForecastingGridSearchCV(base, cv=cv, param_grid=grid, scoring=scoring, refit=case["refit"], n_jobs=case["n_jobs"])
+            tuner = ForecastingGridSearchCV(base, cv=cv, param_grid=grid, scoring=scoring, refit=case["refit"], n_jobs=case["n_jobs"], **skw)
             candidates = list(ParameterGrid(grid))
         else:
             tuner = ForecastingRandomizedSearchCV(base, cv=cv, param_distributions=grid, n_iter=case["n_iter"], scoring=scoring,
-                                                  refit=case["refit"], n_jobs=case["n_jobs"], random_state=case["rs"])
+                                                  refit=case["refit"], n_jobs=case["n_jobs"], random_state=case["rs"], **skw)
             try:
                 candidates = list(ParameterSampler(grid, case["n_iter"], random_state=case["rs"]))
             except Exception:  # noqa
@@ -119,7 +122,7 @@ def run_case(case, ctx):
                 ctx.check("rows", res["params"].iloc[i] == params, "tune:params-order", "row %d holds another parameter set" % i,
                           got=res["params"].iloc[i], expected=params)
                 cand = clone(_build(spec, lid2)).set_params(**params)
-                ev = evaluate(cand, zoo.build_cv(case["cv"]), y.copy(), strategy="refit", scoring=metric)
+                ev = evaluate(cand, zoo.build_cv(case["cv"]), y.copy(), strategy=strategy, scoring=metric)
                 ref = float(ev["test_" + metric.name].mean())
                 ref_scores.append(ref)
                 ctx.check("rows", _eq(res[col].iloc[i], ref), "tune:row-differs-from-independent-evaluate",
@@ -145,7 +148,7 @@ def run_case(case, ctx):
             ctx.check("best.direction", all(ranks[order[k]] <= ranks[order[k + 1]] + 1e-12 for k in range(len(order) - 1)), "tune:rank-column-direction",
                       "rank column is not ordered in the metric's direction", ranks=ranks, scores=scores, greater_is_better=gib)
         # ---- same splits for every candidate (spy log) ------------------------------------------------
-        if spec[0] == "spy-naive":
+        if spec[0] == "spy-naive" and strategy == "refit":
             lg = spies.log(lid)
             per = {}
             for ev in lg:
@@ -195,7 +198,8 @@ def run_case(case, ctx):
                     ctx.check("norefit.guard", False, "tune:refit-false:%s-returned" % name, "%s returned a result although refit=False" % name)
             ctx.seen("refit.delegation", 0)
         ctx.event(base=spec[0], search=case["search"], candidates=len(candidates), metric=metric.name, greater_is_better=gib,
-                  scores=scores[:6], best_index=bi, refit=case["refit"], n_jobs=case["n_jobs"])
+                  scores=scores[:6], best_index=bi, refit=case["refit"], n_jobs=case["n_jobs"], strategy=strategy)
+        ctx.tag("strategy:" + strategy)
         if len(set(round(s, 9) for s in scores)) >= 2:
             ctx.nontrivial = True
     finally:
